@@ -563,29 +563,127 @@ func monC14(c *Case, tr *Trace) []Violation {
 		}
 	}
 	ix := buildWireIndex(tr)
+	// wire evidence per stream: when its close frame was emitted / received, when a cancel was emitted
+	type wireEv struct{ nsEmit, nsRecv, closeEmit, closeRecv, cancelEmit int }
+	evs := map[streamKey]*wireEv{}
+	for _, k := range ix.keys {
+		e := &wireEv{-1, -1, -1, -1, -1}
+		for _, f := range ix.byStream[k] {
+			switch f.F.Kind {
+			case "new_stream":
+				if f.SendErr == "" && e.nsEmit < 0 {
+					e.nsEmit, e.nsRecv = f.Step, f.Received
+				}
+			case "close":
+				if e.closeEmit < 0 {
+					e.closeEmit = f.Step // attempted, even if the carrier refused it
+				}
+				if f.Received >= 0 && e.closeRecv < 0 {
+					e.closeRecv = f.Received
+				}
+			case "cancel":
+				if e.cancelEmit < 0 {
+					e.cancelEmit = f.Step
+				}
+			}
+		}
+		evs[k] = e
+	}
+	carrierOfTunnel := func(ti int) int {
+		if ti < len(tr.Tunnels) {
+			return tr.Tunnels[ti].Carrier
+		}
+		return -1
+	}
 	for _, sn := range tr.Snapshots {
+		// stale entries: an id still in a table although the wire shows its stream has ended at that endpoint
+		for ti, tab := range sn.ClientTables {
+			car := carrierOfTunnel(ti)
+			if car < 0 {
+				continue
+			}
+			for _, id := range tab {
+				e := evs[streamKey{car, id}]
+				if e == nil {
+					continue
+				}
+				if e.closeRecv >= 0 && e.closeRecv < sn.Step {
+					add("client_table_stale_entry", sn.Step, "tunnel %d: stream %d still in the client table at step %d although its close_stream was received at step %d", ti, id, sn.Step, e.closeRecv)
+				}
+				if e.cancelEmit >= 0 && e.cancelEmit < sn.Step {
+					add("client_table_stale_entry", sn.Step, "tunnel %d: stream %d still in the client table at step %d although it was cancelled (cancel frame at step %d)", ti, id, sn.Step, e.cancelEmit)
+				}
+			}
+		}
+		if len(ix.carriers) == 1 && c.Raw == nil {
+			// with one carrier the live servers' ids can be attributed to it
+			for si, tab := range sn.ServerTables {
+				for _, id := range tab {
+					e := evs[streamKey{ix.carriers[0], id}]
+					if e == nil || si > 0 {
+						continue
+					}
+					if e.closeEmit >= 0 && e.closeEmit < sn.Step {
+						add("server_table_stale_entry", sn.Step, "stream %d still in the server table at step %d although its close_stream was emitted at step %d", id, sn.Step, e.closeEmit)
+					}
+				}
+			}
+		}
 		switch sn.Phase {
 		case "drain2", "idle":
-			if len(sn.PendingOps) == 0 && allInvocationsReturned(tr, sn.Step) && base != nil && sn.InFlight == 0 {
-				tunnelsSame := true
-				for _, t := range tr.Tunnels {
-					if (t.DoneStep >= 0 && t.DoneStep <= sn.Step) || (t.ServeReturned >= 0 && t.ServeReturned <= sn.Step) {
-						tunnelsSame = false
+			// fully idle by wire evidence: every stream the server received has had its close emitted, every
+			// stream the client opened has seen its close or was cancelled, nothing is in flight, no op pending
+			idle := len(sn.PendingOps) == 0 && allInvocationsReturned(tr, sn.Step) && base != nil && sn.InFlight == 0
+			nestedUp := 0
+			for _, t := range tr.Tunnels {
+				if t.Kind == "nested" && t.Opened && (t.DoneStep < 0 || t.DoneStep > sn.Step) {
+					nestedUp++
+				}
+				if t.Kind != "nested" && ((t.DoneStep >= 0 && t.DoneStep <= sn.Step) || (t.ServeReturned >= 0 && t.ServeReturned <= sn.Step)) {
+					idle = false // a tunnel already ended: the baseline does not apply
+				}
+			}
+			for k, e := range evs {
+				if k.id == -1 || e.nsEmit < 0 {
+					continue
+				}
+				isTunnelStream := false
+				for _, f := range ix.byStream[k] {
+					if f.F.Kind == "new_stream" && strings.Contains(f.F.Method, "TunnelService/") {
+						isTunnelStream = true
 					}
 				}
-				if tunnelsSame && len(tr.Tunnels) == countOpened(tr, base.Step) && sn.LibGoroutines != base.LibGoroutines {
-					add("goroutine_left_after_rpcs", sn.Step, "no RPC in flight at step %d but %d library goroutines (baseline after tunnel establishment: %d)\n%s", sn.Step, sn.LibGoroutines, base.LibGoroutines, strings.Join(sn.Stacks, "\n---\n"))
+				if isTunnelStream {
+					continue
+				}
+				if e.nsRecv >= 0 && (e.closeEmit < 0 || e.closeEmit > sn.Step) {
+					idle = false
+				}
+				if (e.closeRecv < 0 || e.closeRecv > sn.Step) && (e.cancelEmit < 0 || e.cancelEmit > sn.Step) {
+					idle = false
+				}
+			}
+			if idle {
+				if sn.LibGoroutines != base.LibGoroutines {
+					add("goroutine_left_after_rpcs", sn.Step, "every RPC has ended on both ends by step %d but %d library goroutines exist (baseline after tunnel establishment: %d)\n%s", sn.Step, sn.LibGoroutines, base.LibGoroutines, strings.Join(sn.Stacks, "\n---\n"))
 				}
 				for ti, tab := range sn.ClientTables {
-					if len(tab) > 0 {
-						add("client_table_entry_left", sn.Step, "no RPC in flight at step %d but tunnel %d client table holds %v", sn.Step, ti, tab)
+					allowed := 0
+					if ti < len(tr.Tunnels) && tr.Tunnels[ti].Kind != "nested" {
+						allowed = nestedUp
+					}
+					if len(tab) > allowed {
+						add("client_table_entry_left", sn.Step, "every RPC has ended by step %d but tunnel %d client table holds %v", sn.Step, ti, tab)
 					}
 				}
-				for si, tab := range sn.ServerTables {
-					if len(tab) > 0 {
-						add("server_table_entry_left", sn.Step, "no RPC in flight at step %d but server table #%d holds %v", sn.Step, si, tab)
-					}
+				total := 0
+				for _, tab := range sn.ServerTables {
+					total += len(tab)
 				}
+				if total > nestedUp {
+					add("server_table_entry_left", sn.Step, "every RPC has ended by step %d but server tables hold %v", sn.Step, sn.ServerTables)
+				}
+				tr.label("c14_idle_point")
 			}
 		case "final":
 			if sn.LibGoroutines != 0 {
@@ -600,22 +698,6 @@ func monC14(c *Case, tr *Trace) []Violation {
 			for ti, tab := range sn.ClientTables {
 				if len(tab) > 0 {
 					add("client_table_entry_left", sn.Step, "tunnel %d client table holds %v after the tunnel ended", ti, tab)
-				}
-			}
-		}
-		// stale entries at any snapshot: an id in a table must be live by wire evidence
-		if c.Raw == nil {
-			for ti, tab := range sn.ClientTables {
-				if ti >= len(tr.Tunnels) {
-					continue
-				}
-				car := tr.Tunnels[ti].Carrier
-				for _, id := range tab {
-					for _, f := range ix.byStream[streamKey{car, id}] {
-						if f.F.Kind == "close" && f.Received >= 0 && f.Received < sn.Step && sn.InFlight == 0 {
-							add("client_table_stale_entry", sn.Step, "tunnel %d: stream %d still in the client table at step %d although its close_stream was received at step %d", ti, id, sn.Step, f.Received)
-						}
-					}
 				}
 			}
 		}
